@@ -31,10 +31,11 @@
      k="exc"    an `exception` event was dispatched (a handler raised)
      k="resp"   the bytes written to c contain a(nother) response, as decoded
                 by http.client: st = status, pr = "ok" | "garbage" (status line
-                / headers do not parse) | "incomplete" (body shorter than
+                / headers do not parse, version token not DIGIT "." DIGIT) | "incomplete" (body shorter than
                 announced), sc = it announces that the connection will be
                 closed (Connection: close, HTTP/1.0 without keep-alive, or a
-                body delimited by the end of the connection)
+                body delimited by the end of the connection), a = the version
+                its status line claims (1000 * major + minor; not judged)
      k="close"  the component fired close(sock) for c
      k="disc"   disconnect(sock) for c was delivered to the component
                 (a = 1: injected by the harness = the peer hung up;
